@@ -1,5 +1,6 @@
 //! Correspondence harness: runs the real crate on generated / replayed inputs and
 //! writes Coq case files in which the model is evaluated and compared.
+mod c08;
 mod c14;
 mod util;
 
@@ -23,6 +24,7 @@ fn main() {
     let mut shard = 500usize;
     let mut replay: Option<String> = None;
     let mut corpus: Option<String> = None;
+    let mut tier = String::from("quick");
     let mut i = 2;
     while i < args.len() {
         let a = args[i].as_str();
@@ -34,6 +36,7 @@ fn main() {
             "--shard" => shard = v.parse().unwrap_or(500),
             "--replay" => replay = Some(v),
             "--corpus" => corpus = Some(v),
+            "--tier" => tier = v,
             _ => usage(),
         }
         i += 2;
@@ -68,12 +71,14 @@ fn main() {
         }
         let mut rng = Rng::new(seed);
         let gen = match prop.as_str() {
+            "C08" => c08::generate(&mut rng, n, tier == "thorough"),
             "C14" => c14::generate(&mut rng, n),
             _ => usage(),
         };
         inputs.extend(gen);
     }
     let batch = match prop.as_str() {
+        "C08" => c08::batch(&inputs),
         "C14" => c14::batch(&inputs),
         _ => usage(),
     };
